@@ -214,7 +214,8 @@ where
         environment: Arc<Environment>,
         config: RosomaxaConfig,
     ) -> Result<Self, GenericError> {
-        if config.elite_size < 1 || config.node_size < 1 || config.selection_size < 2 {
+        // NOTE the initial individuals are used to create a network which requires at least four of them
+        if config.elite_size < 1 || config.node_size < 1 || config.selection_size < 2 || config.initial_size < 4 {
             return Err("Rosomaxa algorithm requires some parameters to be above thresholds".into());
         }
 
